@@ -36,25 +36,12 @@ func c01Model_DBLookup(db *compactindexsized.DB, key []byte) ([]byte, error) {
 	return nil, compactindexsized.ErrNotFound
 }
 
-
-// ---- cut: bigcache is a map (never evicts; may also be switched off to model eviction).
-var (
-	c01Cache     = map[string][]byte{}
-	c01CacheKeep = true
-)
-
-func c01Model_bigcacheGet(c *bigcache.BigCache, key string) ([]byte, error) {
-	if v, ok := c01Cache[key]; ok {
-		return append([]byte{}, v...), nil
-	}
-	return nil, bigcache.ErrEntryNotFound
-}
-
-func c01Model_bigcacheSet(c *bigcache.BigCache, key string, entry []byte) error {
-	if c01CacheKeep {
-		c01Cache[key] = append([]byte{}, entry...)
-	}
-	return nil
+// The object cache: bigcache is the engine's model (ext_C03.go: string-keyed map, never evicts);
+// an evicting cache is covered by giving the epoch a fresh cache before the second round.
+func c01NewCache() *hugecache.Cache {
+	c, err := hugecache.NewWithConfig(context.Background(), bigcache.Config{})
+	verifAssert(err == nil && c != nil, "C01: cache construction failed")
+	return c
 }
 
 // payload lengths around the 1/2/3-byte length-prefix boundaries (36-byte CID)
@@ -69,8 +56,7 @@ var c01PrefixLens = []int{60, 0, 1, 4095, 70000}
 // seek) and ReadAtFromCar return exactly the section's payload bytes / raw bytes, whatever
 // surrounds the section in the file; a different wanted CID is refused.
 func VerifC01Read() {
-	bigcache.ErrEntryNotFound = errors.New("Entry not found") // library global (bigcache is not a source root)
-	c01CacheKeep = verifChoice("cacheKeeps", 2) == 1
+	cacheKeeps := verifChoice("cacheKeeps", 2) == 1
 	dl := c01DataLens[verifChoice("datalen", verifParam("nlens", len(c01DataLens)))]
 	pl := c01PrefixLens[verifChoice("prefixlen", verifParam("nprefix", len(c01PrefixLens)))]
 	data := verifBytes("data", dl)
@@ -92,10 +78,13 @@ func VerifC01Read() {
 		config:                  &Config{},
 		remoteCarReader:         f,
 		cidToOffsetAndSizeIndex: &indexes.CidToOffsetAndSize_Reader{},
-		allCache:                &hugecache.Cache{},
+		allCache:                c01NewCache(),
 	}
 	ctx := context.Background()
 	for round := 0; round < 2; round++ { // second round: offset and raw object come from the cache (if it kept them)
+		if round == 1 && !cacheKeeps {
+			ep.allCache = c01NewCache()
+		}
 		got, err := ep.GetNodeByCid(ctx, c01Cid(0))
 		if err != nil {
 			verifTrace("GetNodeByCid", err.Error())
